@@ -129,7 +129,7 @@ def validateRangedPoolParams (minP maxP initP : Dec) : M Bool :=
 /-- number of decimal digits of `|i|` (`len(Text(10))` without the sign) -/
 def digits (i : Int) : Nat := (toString i.natAbs).length
 
-/-- `InitialPoolCoinSupply` -/
+/-- `InitialPoolCoinSupply` (the value `10^c`; the library's 256-bit check on it is applied by the caller below) -/
 def initialPoolCoinSupply (x y : Int) : Int :=
   let lx := digits x + (if x < 0 then 1 else 0)
   let ly := digits y + (if y < 0 then 1 else 0)
@@ -256,7 +256,10 @@ def createRangedPool (x y : Int) (minP maxP initP : Dec) : M (Option RPool) :=
     if v = false then pure none
     else do
       let a ← createAmounts x y minP maxP initP
-      let p ← newRangedPool a.1 a.2 (initialPoolCoinSupply a.1 a.2) minP maxP
+      -- `NewIntFromBigInt(10^c)` in `InitialPoolCoinSupply` panics above 256 bits (both amounts ≥ 10^77); found by
+      -- the regenerated translation (Props/C06Pure.lean `pure_ammInitialPoolCoinSupply_eq_model`)
+      let ps ← chkInt (initialPoolCoinSupply a.1 a.2)
+      let p ← newRangedPool a.1 a.2 ps minP maxP
       pure (some p)
 
 /-- the price of a freshly created ranged pool, `none` if creation or `Price()` fails -/
